@@ -242,6 +242,12 @@ func skipSexpr(s string, i int) int {
 	return i
 }
 
+// nonZeroRef: the model value of a reference is not 0 (references may be huge numbers).
+func nonZeroRef(v string) bool {
+	v = strings.TrimSpace(v)
+	return v != "0" && v != "" && !strings.HasPrefix(v, "(- 0")
+}
+
 func parseSMTInt(v string) (int64, bool) {
 	v = strings.TrimSpace(v)
 	neg := false
@@ -434,17 +440,17 @@ func (vb *valueBuilder) build(term string, t types.Type, depth int) string {
 			vb.fail = err.Error()
 			return "nil"
 		}
-		ref, ok := parseSMTInt(v)
-		if !ok || ref == 0 {
+		if !nonZeroRef(v) {
 			return "nil"
 		}
+		ref := strings.TrimSpace(v)
 		et := u.Elem()
 		if _, isArr := isArrayType(et); isArr {
 			vb.fail = "pointer to array in model"
 			return "nil"
 		}
 		h := vc.objHeap(et)
-		key := fmt.Sprintf("%s:%d", h.name, ref)
+		key := fmt.Sprintf("%s:%s", h.name, ref)
 		if name, ok := vb.ptrVars[key]; ok {
 			return name
 		}
@@ -452,7 +458,7 @@ func (vb *valueBuilder) build(term string, t types.Type, depth int) string {
 		vb.ptrVars[key] = name
 		fmt.Fprintf(&vb.buf, "\t%s := new(%s)\n", name, vb.typeStr(et))
 		if ht, ok := vb.initHeapTerm(h.name); ok {
-			val := vb.build(fmt.Sprintf("(select %s %d)", ht, ref), et, depth+1)
+			val := vb.build(fmt.Sprintf("(select %s %s)", ht, ref), et, depth+1)
 			fmt.Fprintf(&vb.buf, "\t*%s = %s\n", name, val)
 		}
 		return name
@@ -462,15 +468,14 @@ func (vb *valueBuilder) build(term string, t types.Type, depth int) string {
 			vb.fail = err.Error()
 			return "nil"
 		}
-		arr, _ := parseSMTInt(arrV)
-		if arr == 0 {
+		if !nonZeroRef(arrV) {
 			return "nil"
 		}
+		arr := strings.TrimSpace(arrV)
 		lv, _ := vb.m.eval("(s-len " + term + ")")
-		ln, _ := parseSMTInt(lv)
-		ov, _ := vb.m.eval("(s-off " + term + ")")
-		off, _ := parseSMTInt(ov)
-		if ln > 12 {
+		ln, lok := parseSMTInt(lv)
+		off := int64(0)
+		if !lok || ln > 12 {
 			vb.fail = fmt.Sprintf("slice of length %d in model", ln)
 			return "nil"
 		}
@@ -479,7 +484,7 @@ func (vb *valueBuilder) build(term string, t types.Type, depth int) string {
 		var elems []string
 		for i := int64(0); i < ln; i++ {
 			if haveHeap {
-				elems = append(elems, vb.build(fmt.Sprintf("(select (select %s %d) %d)", ht, arr, off+i), u.Elem(), depth+1))
+				elems = append(elems, vb.build(fmt.Sprintf("(select (select %s %s) %d)", ht, arr, off+i), u.Elem(), depth+1))
 			} else {
 				elems = append(elems, vb.zeroExpr(u.Elem()))
 			}
@@ -535,8 +540,7 @@ func (vb *valueBuilder) build(term string, t types.Type, depth int) string {
 			vb.fail = err.Error()
 			return "nil"
 		}
-		ref, _ := parseSMTInt(v)
-		if ref == 0 {
+		if !nonZeroRef(v) {
 			return "nil"
 		}
 		// contents are not rebuilt: an empty map stands in (the replay decides whether that matters)
@@ -629,6 +633,7 @@ func replayObligation(e *Engine, o *Obligation, outDir, work string) (string, bo
 	for i, p := range fn.Params {
 		sizeHints(x, &small, x.rootParams[i].S, p.Type(), 0, map[string]bool{})
 	}
+	fmt.Fprintf(&small, "(assert (<= %s 64))\n", x.top0.S)
 	scriptBase := script
 	var m *modelSession
 	var verdict string
